@@ -68,6 +68,30 @@ inductive Val where
   | struct (vs : List Val)
   deriving Repr, Inhabited
 
+mutual
+/-- structural equality on values (Boolean, kernel-evaluable). -/
+def Val.beq : Val → Val → Bool
+  | .num a, .num b => a == b
+  | .str a, .str b => a == b
+  | .raw a, .raw b => a == b
+  | .dt a b, .dt c d => a == c && b == d
+  | .none, .none => true
+  | .some a, .some b => Val.beq a b
+  | .vec a, .vec b => Val.beqList a b
+  | .struct a, .struct b => Val.beqList a b
+  | _, _ => false
+def Val.beqList : List Val → List Val → Bool
+  | [], [] => true
+  | a :: as, b :: bs => Val.beq a b && Val.beqList as bs
+  | _, _ => false
+end
+
+/-- `r` is `ok (v, rest)` (Boolean form used in `decide`d examples). -/
+def Res.isOkVal (r : Res (Val × Bytes)) (v : Val) (rest : Bytes) : Bool :=
+  match r with
+  | .ok (v', r') => Val.beq v' v && r' == rest
+  | .error _ => false
+
 /-! ### Generic `<TAG><LENGTH><DATA>` triple (`ZvtSerializerImpl` default methods) -/
 
 def serTagged (tagEnc : Nat → Bytes) (L : LenKind) (tag : Option Nat) (payload : Res Bytes) : Res Bytes :=
